@@ -13,6 +13,7 @@ import (
 	"strconv"
 	"strings"
 	"sync"
+	"sync/atomic"
 	"time"
 
 	"mellium.im/xmlstream"
@@ -40,7 +41,34 @@ import (
 	"verifharness/common"
 )
 
-const watchdog = 3 * time.Second
+// baseWatchdog stands for "blocks for ever".  A case that stalls is run once more, alone, with
+// five times the watchdog before the stall is recorded (a loaded machine must not produce
+// findings); wd() is the watchdog in force.
+const baseWatchdog = 3 * time.Second
+
+var watchdogNs atomic.Int64
+
+func wd() time.Duration {
+	if v := watchdogNs.Load(); v > 0 {
+		return time.Duration(v)
+	}
+	return baseWatchdog
+}
+
+// retryStalled runs the case; if it stalls, runs it again with a five-fold watchdog and
+// reports that second outcome.
+func retryStalled(run func() outcome) outcome {
+	o := run()
+	if !o.stalled {
+		return o
+	}
+	// let the goroutines of the stalled attempt settle (they only matter if the machine is
+	// overloaded, which is exactly the case this retry is for)
+	time.Sleep(50 * time.Millisecond)
+	watchdogNs.Store(int64(5 * baseWatchdog))
+	defer watchdogNs.Store(0)
+	return run()
+}
 
 var (
 	local  = jid.MustParse("me@example.net/home")
@@ -173,7 +201,7 @@ func (fx *fixture) finish() outcome {
 	select {
 	case o := <-fx.done:
 		return o
-	case <-time.After(watchdog):
+	case <-time.After(wd()):
 		if os.Getenv("C09_DEBUG") != "" {
 			_ = pprof.Lookup("goroutine").WriteTo(os.Stderr, 2)
 		}
@@ -205,7 +233,7 @@ func serveOn(fx *fixture, input []byte) outcome {
 		_ = fx.rs.In.Close()
 		<-fed
 		return o
-	case <-time.After(watchdog):
+	case <-time.After(wd()):
 		_ = fx.rs.In.Close()
 		return outcome{stalled: true, where: "Serve neither consumed the input nor returned"}
 	}
@@ -240,7 +268,7 @@ func servexCase(mode string, k int, stanzas []string) (o outcome, writes int) {
 		pre := strings.Join(stanzas[:k], "") + `<iq xmlns="jabber:client" type="get" id="sync1" from="example.net"><ping xmlns="urn:xmpp:ping"/></iq>`
 		fed := make(chan error, 1)
 		go func() { fed <- fx.rs.Feed([]byte(pre)) }()
-		deadline := time.Now().Add(watchdog)
+		deadline := time.Now().Add(wd())
 		for !strings.Contains(string(fx.rs.Out.Bytes()), `id="sync1"`) {
 			select {
 			case so := <-fx.done:
@@ -264,7 +292,7 @@ func servexCase(mode string, k int, stanzas []string) (o outcome, writes int) {
 			_ = fx.rs.In.Close()
 			return co, 0
 		}
-	case <-time.After(watchdog):
+	case <-time.After(wd()):
 		_ = fx.rs.In.Close()
 		return outcome{stalled: true, where: "Session.Close did not return"}, 0
 	}
@@ -334,14 +362,14 @@ func helperCase(h *helper, typ string, reply []byte) outcome {
 		// Serve ended first (malformed reply): the helper must still return
 		select {
 		case o = <-res:
-		case <-time.After(watchdog):
+		case <-time.After(wd()):
 			return outcome{stalled: true, where: "the helper did not return although Serve had ended"}
 		}
 		if so.panicMsg != "" {
 			return so
 		}
 		fx.done <- so
-	case <-time.After(watchdog):
+	case <-time.After(wd()):
 		_ = fx.rs.In.Close()
 		return outcome{stalled: true, where: "neither the helper nor Serve returned"}
 	}
@@ -494,6 +522,10 @@ var stanzaTemplates = [][]string{
 	{`<iq type="get" id="t1" from="juliet@example.com/b"><time xmlns="urn:xmpp:time"/></iq>`},
 	{`<iq type="get" id="d1" from="juliet@example.com/b"><query xmlns="http://jabber.org/protocol/disco#info" node="n"/></iq>`},
 	{`<iq type="get" id="d2" from="juliet@example.com/b"><query xmlns="http://jabber.org/protocol/disco#items"/></iq>`},
+	// handlers that produce their reply through a pipe fed by a goroutine (all features / items
+	// of the multiplexer, no node filter)
+	{`<iq type="get" id="d3" from="juliet@example.com/b"><query xmlns="http://jabber.org/protocol/disco#info"/></iq>`},
+	{`<iq type="get" id="d4" from="juliet@example.com/b"><query xmlns="http://jabber.org/protocol/disco#items" node="http://jabber.org/protocol/commands"/></iq>`},
 	{`<iq type="set" id="r1"><query xmlns="jabber:iq:roster" ver="v2"><item jid="a@b" name="A" subscription="both"><group>G</group></item></query></iq>`},
 	{`<iq type="get" id="b1"><blocklist xmlns="urn:xmpp:blocking"/></iq>`},
 	{`<iq type="set" id="b2"><block xmlns="urn:xmpp:blocking"><item jid="romeo@montague.net"/><item jid="iago@shakespeare.lit"/></block></iq>`},
@@ -587,7 +619,7 @@ func (c *ctx) record(line string, o outcome, class string) {
 			key = "stall:scen:" + f[1]
 		}
 		r.Fail = &recFail{Clause: "no-wedge", Key: key, Lines: []string{c.r.Prop + " " + line},
-			Detail: "still running after " + watchdog.String() + ": " + o.where}
+			Detail: "still running after " + wd().String() + ": " + o.where}
 	}
 	c.emit(r)
 }
@@ -619,7 +651,7 @@ func (c *ctx) serve(input string, class string) {
 		return
 	}
 	t0 := time.Now()
-	o := serveCase([]byte(input))
+	o := retryStalled(func() outcome { return serveCase([]byte(input)) })
 	if d := time.Since(t0); d > 200*time.Millisecond && os.Getenv("C09_DEBUG") != "" {
 		fmt.Fprintf(os.Stderr, "slow serve %v %s %s: %s\n", d, class, o.obs(), input)
 	}
@@ -638,7 +670,12 @@ func (c *ctx) servex(mode string, k int, stanzas []string, class string) int {
 	if c.stalls["servex"] >= 2*maxStalls || !c.begin(line) {
 		return 0
 	}
-	o, w := servexCase(mode, k, stanzas)
+	var w int
+	o := retryStalled(func() outcome {
+		var oo outcome
+		oo, w = servexCase(mode, k, stanzas)
+		return oo
+	})
 	if o.stalled {
 		c.stalls["servex"]++
 	}
@@ -651,7 +688,7 @@ func (c *ctx) helper(h *helper, typ, reply, class string) {
 		return
 	}
 	t0 := time.Now()
-	o := helperCase(h, typ, []byte(reply))
+	o := retryStalled(func() outcome { return helperCase(h, typ, []byte(reply)) })
 	if d := time.Since(t0); d > 200*time.Millisecond && os.Getenv("C09_DEBUG") != "" {
 		fmt.Fprintf(os.Stderr, "slow helper %v %s %s %s %s: %s\n", d, class, o.obs(), h.name, typ, reply)
 	}
